@@ -44,9 +44,10 @@ except Exception:
 res["clause_broken"] = am.get("clause_broken", ""); res["needs_to_manifest"] = am.get("needs_to_manifest", ""); res["files_changed"] = am.get("files_changed", [])
 print(json.dumps({k: res[k] for k in ("confirmed", "detected", "check_exit", "rejected_clauses", "tests_passed_with_change")}))
 if ok:
-    dst = "/verif/seeded/%s-%s" % (pid, name)
+    dst = "/verif/seeded/%s" % name if name.startswith(pid + "-") else "/verif/seeded/%s-%s" % (pid, name)
     os.makedirs(dst, exist_ok=True)
-    shutil.copy(patch, dst); shutil.copy(demo, dst)
+    if os.path.abspath(os.path.dirname(patch)) != os.path.abspath(dst):
+        shutil.copy(patch, dst); shutil.copy(demo, dst)
     json.dump(res, open(os.path.join(dst, "meta.json"), "w"), indent=1)
 else:
     print("NOT CONFIRMED", json.dumps(res)[:1500])
